@@ -277,7 +277,7 @@ def first_iterate(case, obs, name):
 
 def gen_cases(ctx, salt=17, ncase=None):
     rng = ctx.rng(salt)
-    ncase = ncase or (28 if ctx.quick else 300)
+    ncase = ncase or (24 if ctx.quick else 300)
     cases = []
     for i in range(ncase):
         n = int(rng.integers(1, 4))
@@ -301,7 +301,7 @@ def gen_cases(ctx, salt=17, ncase=None):
             kw["maxiter"] = 0
         cases.append({"obj": {"type": "poly", "a": a, "b": b, "c": c, "k": k}, "x0": x0, "kw": kw, "trust": (i % 7 == 0)})
     # starts next to an inflection (12 x^2 - 3 = 0 at x = 1/2): huge Newton steps, many rejected trials, reset reached
-    nin = 10 if ctx.quick else 60
+    nin = 7 if ctx.quick else 60
     for i in range(nin):
         n = int(rng.integers(1, 3))
         d = float(rng.choice([1, -1])) / float(rng.choice([32, 64, 128, 256, 512]))
@@ -311,6 +311,36 @@ def gen_cases(ctx, salt=17, ncase=None):
         x0 = [0.5 + d] + [float(v) / 4 for v in rng.integers(-6, 7, size=n - 1)]
         kw = {"maxiter": 1, "miniter": 0, "absdelta": None, "xtol": 1e-5, "erf": 0.1}
         cases.append({"obj": {"type": "poly", "a": a, "b": b, "c": c, "k": 0}, "x0": x0, "kw": kw, "trust": False})
+    # separable 2-d objectives whose first acceptable trial is one of the three after the reset (selected with a
+    # NumPy evaluation of the nine trial energies; selection only)
+    want = {6: 1, 7: 1, 8: 2} if ctx.quick else {6: 6, 7: 6, 8: 8}
+    got = {}
+    for _ in range(20000):
+        if all(got.get(k, 0) >= v for k, v in want.items()):
+            break
+        d = float(rng.choice([1, -1])) / float(rng.choice([32, 64, 128, 256, 512]))
+        a = [4, int(rng.integers(1, 5))]
+        b = [-3, int(rng.integers(-4, 3))]
+        c = [int(rng.integers(-1, 2)), int(rng.integers(-2, 3))]
+        x0 = [0.5 + d, float(rng.integers(-8, 9)) / 4]
+        an, bn, cn, xn = (np.array(v, float) for v in (a, b, c, x0))
+        fn = lambda x: float(np.sum(an * x ** 4 / 4 + bn * x ** 2 / 2 + cn * x))
+        g = an * xn ** 3 + bn * xn + cn
+        H = 3 * an * xn ** 2 + bn
+        if np.any(H <= 1e-6):
+            continue
+        ngd = g / H
+        rd = (g @ g) / abs(float(g @ (H * g))) * g
+        f0 = fn(xn)
+        vals = [fn(xn - sc * ngd) for sc in SCAL[:6]] + [fn(xn - sc * rd) for sc in SCAL[6:]]
+        if any(abs(v - f0) < 1e-6 * max(1.0, abs(f0)) for v in vals):
+            continue
+        ok = [i for i, v in enumerate(vals) if v <= f0]
+        k = ok[0] if ok else 9
+        if k in want and got.get(k, 0) < want[k]:
+            got[k] = got.get(k, 0) + 1
+            kw = {"maxiter": 1, "miniter": 0, "absdelta": None, "xtol": 1e-5, "erf": 0.1}
+            cases.append({"obj": {"type": "poly", "a": a, "b": b, "c": c, "k": 0}, "x0": x0, "kw": kw, "trust": False})
     return cases
 
 
